@@ -221,3 +221,62 @@ def unbounded_offset(curves):
     if vals <= {-1, 0}:
         return 1, vals
     return None, vals
+
+
+def spec_valid(spec, margin_rel=0.01) -> bool:
+    """
+    the spec is a valid input of the direct constructors: Connected = one
+    ccw curve containing pairwise-apart cw holes, or pairwise-apart cw
+    curves; Disjoint = components with pairwise disjoint regions (an island
+    may sit inside a hole).  Decided by the reference (exact for polygons).
+    """
+    k = spec["k"]
+    if k in ("empty", "whole", "simple"):
+        return True
+    curves = spec_curves(spec)
+    size = max(rg.curve_size(c) for c in curves)
+    margin = margin_rel * size
+    if k == "connected":
+        areas = [rg.curve_area(c) for c in curves]
+        pos = [i for i, a in enumerate(areas) if a > 0]
+        if len(pos) > 1:
+            return False
+        for i in range(len(curves)):
+            for j in range(i + 1, len(curves)):
+                rel = rg.curves_relation(curves[i], curves[j], margin)
+                if areas[i] > 0:
+                    if rel != "B_in_A":
+                        return False
+                elif areas[j] > 0:
+                    if rel != "A_in_B":
+                        return False
+                elif rel != "apart":
+                    return False
+        return True
+    # disjoint: every part valid, no two curves of different parts touch,
+    # and the regions do not overlap: checked on witness points
+    for p in spec["parts"]:
+        if not spec_valid(p, margin_rel):
+            return False
+    parts = spec["parts"]
+    regions = [spec_region(p) for p in parts]
+    for i in range(len(parts)):
+        for j in range(i + 1, len(parts)):
+            for ca in spec_curves(parts[i]):
+                for cb in spec_curves(parts[j]):
+                    if rg.curves_relation(ca, cb, margin) == "touch":
+                        return False
+            both = spec_curves(parts[i]) + spec_curves(parts[j])
+            for c in both:
+                for seg in c:
+                    m = rg.bez_eval([rg.fl(q) for q in seg], 0.5)
+                    n = None
+                    d = rg.bez_eval(rg.bez_deriv([rg.fl(q) for q in seg]), 0.5)
+                    nd = (d[0] ** 2 + d[1] ** 2) ** 0.5
+                    if nd == 0:
+                        continue
+                    for sgn in (1, -1):
+                        w = (m[0] + sgn * margin * 0.3 * d[1] / nd, m[1] - sgn * margin * 0.3 * d[0] / nd)
+                        if regions[i].contains(w) and regions[j].contains(w):
+                            return False
+    return True
